@@ -5,6 +5,7 @@ package verifharness
 // and the server's query log are compared with the specification's result and requirements.
 
 import (
+	"bytes"
 	"context"
 	"errors"
 	"fmt"
@@ -479,4 +480,90 @@ func TestInputFormLengths(t *testing.T) {
 			t.Fatalf("%s: host length %d, want %d", id, len(h), n)
 		}
 	}
+}
+
+// A compressed response larger than 1 KiB in which a record of another owner is named by a compression pointer to an
+// offset above 1023: the record belongs to the name at THAT offset (pointers are 14 bits), not to the question name.
+func TestResolveBigCompressed(t *testing.T) {
+	out := os.Getenv("VH_OUT")
+	if out == "" {
+		t.Skip("VH_OUT not set")
+	}
+	w := newNDWriter(t, out)
+	defer w.Close()
+	build := func(id int, qtype int, evilAt int) []byte {
+		m := u16(id)
+		m = append(m, 0x81, 0x80, 0, 1, 0, 0, 0, 0, 0, 0)
+		m = append(m, wName("origin.example")...) // at offset 12
+		m = append(m, u16(qtype)...)
+		m = append(m, u16(1)...)
+		n := 0
+		rr := func(owner []byte, typ int, data []byte) {
+			m = append(m, owner...)
+			m = append(m, u16(typ)...)
+			m = append(m, u16(1)...)
+			m = append(m, u32(60)...)
+			m = append(m, u16(len(data))...)
+			m = append(m, data...)
+			n++
+		}
+		for len(m) < evilAt { // filler records owned by the question name, until the other name starts exactly at evilAt
+			left := evilAt - len(m)
+			k := min(left, 250)
+			if left-k > 0 && left-k < 14 {
+				k = left - 14
+			}
+			rr([]byte{0xc0, 12}, 16, append([]byte{byte(k - 13)}, bytes.Repeat([]byte{'f'}, k-13)...))
+		}
+		ip := func(s string) []byte {
+			if qtype == tA {
+				return net.ParseIP(s).To4()
+			}
+			if strings.HasPrefix(s, "192.0.2.") {
+				return net.ParseIP("2001:db8:1::" + s[len(s)-2:]).To16()
+			}
+			return net.ParseIP("2001:db8:bad::" + s[len(s)-2:]).To16()
+		}
+		rr(wName("evil.example"), qtype, ip("203.0.113.66"))                        // spelled out, starting at evilAt
+		rr([]byte{0xc0 | byte(evilAt>>8), byte(evilAt)}, qtype, ip("203.0.113.67")) // the same owner, by pointer
+		rr([]byte{0xc0, 12}, qtype, ip("192.0.2.11"))                               // the question name's own record
+		m[6], m[7] = byte(n>>8), byte(n)
+		return m
+	}
+	bad := 0
+	for _, evilAt := range []int{1036, 1024 + 12, 2048 + 12, 4096 + 12, 8192 + 12} {
+		srv := newDoHServer(func(id int, name string, qtype int) ([]byte, int) {
+			if qtype == tHTTPS || name != "origin.example" {
+				return wResponse(id, name, qtype, 0, nil), 200
+			}
+			return build(id, qtype, evilAt), 200
+		})
+		res, _ := ech.NewResolver(srv.url())
+		ctx, cancel := context.WithTimeout(context.Background(), 10*time.Second)
+		rr, err := res.Resolve(ctx, "origin.example")
+		cancel()
+		srv.Close()
+		d := ""
+		switch {
+		case envError(err):
+			w.Write(Ev{"summary": true, "env": 1})
+			return
+		case err != nil:
+			d = "a legal compressed response is refused: " + err.Error()
+		default:
+			for _, a := range rr.Address {
+				if s := a.String(); strings.HasPrefix(s, "203.0.113.") || strings.HasPrefix(s, "2001:db8:bad:") {
+					d = fmt.Sprintf("address %s of another owner name (reached by a compression pointer to offset %d) is used for the name asked", s, evilAt)
+				}
+			}
+			if d == "" && len(rr.Address) != 2 {
+				d = fmt.Sprintf("addresses %v: the name's own A and AAAA records are 192.0.2.11 and 2001:db8:1::11", rr.Address)
+			}
+		}
+		if d != "" {
+			bad++
+			w.Write(Ev{"key": fmt.Sprint(evilAt), "diff": d})
+		}
+	}
+	w.Write(Ev{"summary": true, "cases": 5, "bad": bad})
 }
